@@ -1,0 +1,77 @@
+"""Guarded verification hooks (inactive unless the environment has LIQUID_VERIF=1).
+
+With the guard off, every hook site is a single `if _verif.ENABLED:` test on a module
+constant. With the guard on, events are passed to `sink` (when one is installed).
+"""
+
+from __future__ import annotations
+
+import os
+from typing import Any
+from typing import Callable
+from typing import Optional
+
+ENABLED = os.environ.get("LIQUID_VERIF") == "1"
+
+sink: Optional[Callable[[str, dict[str, Any]], None]] = None
+"""Receives `(kind, fields)` for every emitted event."""
+
+
+def emit(kind: str, **fields: Any) -> None:
+    """Pass an event to the installed sink, if any."""
+    if sink is not None:
+        sink(kind, fields)
+
+
+def _find(mapping: Any, name: str, ctx: Any) -> Optional[str]:
+    """Classify the namespace `name` resolves from, or None if it is not found."""
+    maps = getattr(mapping, "_maps", None)
+    if maps is not None and mapping is not ctx["globals"]:
+        # A ReadOnlyChainMap: first hit wins, like __getitem__.
+        for m in list(maps):
+            found = _find(m, name, ctx)
+            if found is not None:
+                return found
+        return None
+    try:
+        mapping[name]
+    except (KeyError, TypeError, IndexError):
+        return None
+    if mapping is ctx["globals"]:
+        return "global"
+    return str(ctx["kinds"].get(id(mapping), "local"))
+
+
+def origin(context: Any, name: object) -> str:
+    """Where `name` resolves from in `context`.
+
+    One of "global" (render arguments, template or environment globals of the
+    outermost render context), "local" (assign/capture locals, a pushed namespace,
+    or the arguments of a render/call/with/include), "builtin", "counter" or
+    "missing".
+    """
+    if not isinstance(name, str):
+        return "missing"
+    root = context
+    kinds: dict[int, str] = {}
+    while True:
+        kinds[id(root.counters)] = "counter"
+        if root.parent_context is None:
+            break
+        root = root.parent_context
+    from .context import builtin
+
+    kinds[id(builtin)] = "builtin"
+    info = {"globals": root.globals, "kinds": kinds}
+    return _find(context.scope, name, info) or "missing"
+
+
+def lookup(context: Any, root: object, token: Any) -> dict[str, Any]:
+    """Fields describing one variable lookup."""
+    return {
+        "root": root,
+        "index": token.start_index if token is not None else -1,
+        "source": token.source if token is not None else None,
+        "template": context.template.name,
+        "origin": origin(context, root),
+    }
